@@ -21,7 +21,26 @@ type bundleT struct {
 	Packages []string // in dependency order (a package imports only earlier ones)
 }
 
-var bundlePkgs = []string{"foo.v1", "bar.v1", "baz.v1"}
+// package naming schemes (in dependency order: a package imports only earlier ones). The import short
+// name of a package is the segment before the version ("bar" for acme.billing.bar.v1): packages of three
+// and four segments, and a package whose directory lies below another package's directory, in both
+// dependency directions.
+var bundleSchemes = [][]string{
+	{"foo.v1", "bar.v1", "baz.v1"},
+	{"acme.foo.v1", "acme.billing.bar.v1", "baz.v1"},
+	{"outer.v1", "outer.v1.inner.v1", "baz.v1"},
+	{"outer.v1.inner.v1", "outer.v1", "baz.v1"},
+	{"foo.bar.v1", "foo.baz.v1", "foo.bar.v1.sub.v1"},
+}
+
+// pkgShort: the name an import without alias brings into scope (README "Packages and Imports")
+func pkgShort(pkg string) string {
+	parts := strings.Split(pkg, ".")
+	if len(parts) < 2 {
+		return pkg
+	}
+	return parts[len(parts)-2]
+}
 
 // fields that need no reference, taken from the C07 field space (in the language, no known gap)
 func scalarFtys() []fty {
@@ -124,12 +143,20 @@ func genBundle(r *vh.Rand) bundleT {
 	pool := scalarFtys()
 	b := bundleT{Content: map[string]string{}}
 	nPkg := r.Range(1, 3)
+	bundlePkgs := bundleSchemes[0]
+	if r.Chance(55) {
+		bundlePkgs = vh.Pick(r, bundleSchemes[1:])
+		if nPkg < 2 {
+			nPkg = 2
+		}
+	}
 	exported := map[string][]declRef{} // package -> declarations visible to later files/packages
+	noAlias := map[string]bool{}       // file-local: import written without an alias
 	for pi := 0; pi < nPkg; pi++ {
 		pkg := bundlePkgs[pi]
 		b.Packages = append(b.Packages, pkg)
 		dir := strings.ReplaceAll(pkg, ".", "/")
-		short := strings.SplitN(pkg, ".", 2)[0]
+		short := pkgShort(pkg)
 		nFiles := r.Range(1, 4)
 		for fi := 0; fi < nFiles; fi++ {
 			letter := string(rune('a' + fi))
@@ -138,9 +165,20 @@ func genBundle(r *vh.Rand) bundleT {
 			var refs []declRef
 			refs = append(refs, exported[pkg]...)
 			alias := map[string]string{}
+			noAlias = map[string]bool{}
+			takenShort := map[string]bool{}
 			for pj := 0; pj < pi; pj++ {
 				if r.Chance(60) {
-					alias[bundlePkgs[pj]] = strings.SplitN(bundlePkgs[pj], ".", 2)[0]
+					sh := pkgShort(bundlePkgs[pj])
+					if takenShort[sh] {
+						// a second import with the same short name gets a distinct alias
+						alias[bundlePkgs[pj]] = sh + fmt.Sprint(pj)
+					} else {
+						alias[bundlePkgs[pj]] = sh
+						// by package name (no alias) or with an alias: both bring the same name into scope
+						noAlias[bundlePkgs[pj]] = r.Chance(50)
+					}
+					takenShort[sh] = true
 					refs = append(refs, exported[bundlePkgs[pj]]...)
 				}
 			}
@@ -245,7 +283,11 @@ func genBundle(r *vh.Rand) bundleT {
 			}
 			sort.Strings(imps)
 			for _, p := range imps {
-				sb.WriteString("import " + p + ":" + alias[p] + "\n")
+				if noAlias[p] {
+					sb.WriteString("import " + p + "\n")
+				} else {
+					sb.WriteString("import " + p + ":" + alias[p] + "\n")
+				}
 			}
 			if len(imps) > 0 {
 				sb.WriteString("\n")
@@ -346,6 +388,41 @@ object Use {
   field ping object:foo.PingRequest
 }
 `,
+		},
+	}
+}
+
+// nestedDirBundle: a local package whose directory lies below another local package's directory, the
+// enclosing one importing the nested one (and a third, unrelated package): attributing a file to a package
+// must not depend on the order the packages are listed in.
+func nestedDirBundle() bundleT {
+	return bundleT{
+		Packages: []string{"outer.v1.inner.v1", "other.v1", "outer.v1"},
+		Content: map[string]string{
+			"outer/v1/outer.j5s":          "package outer.v1\n\nimport outer.v1.inner.v1:inner\n\nobject Outer {\n  field name string\n  field inner object:inner.Inner\n  field kind enum:inner.Kind {\n    rules.in = [\"B\"]\n  }\n}\n",
+			"outer/v1/inner/v1/inner.j5s": "package outer.v1.inner.v1\n\nobject Inner {\n  field name string\n}\n\nenum Kind {\n  option A\n  option B\n}\n",
+			"outer/v1/inner/v1/more.j5s":  "package outer.v1.inner.v1\n\nobject More {\n  field inner object:Inner\n}\n",
+			"other/v1/other.j5s":          "package other.v1\n\nimport outer.v1\n\nobject Other {\n  field o object:outer.Outer\n}\n",
+		},
+	}
+}
+
+// sharedShortNameBundle: imports without alias of packages that share the segment before the version
+// (foo.v1 + foo.v2, a.foo.v1 + b.foo.v1) and references through that short name to a type every one of them
+// defines. At the short name the LAST import wins; which one it is must not vary between compilations.
+func sharedShortNameBundle() bundleT {
+	thing := func(pkg, field string) string {
+		return "package " + pkg + "\n\nobject Thing {\n  field " + field + " string\n}\n\nenum Kind {\n  option A\n  option " + strings.ToUpper(field) + "\n}\n"
+	}
+	return bundleT{
+		Packages: []string{"foo.v1", "foo.v2", "a.foo.v1", "b.foo.v1", "use.v1"},
+		Content: map[string]string{
+			"foo/v1/t.j5s":   thing("foo.v1", "one"),
+			"foo/v2/t.j5s":   thing("foo.v2", "two"),
+			"a/foo/v1/t.j5s": thing("a.foo.v1", "three"),
+			"b/foo/v1/t.j5s": thing("b.foo.v1", "four"),
+			"use/v1/a.j5s":   "package use.v1\n\nimport foo.v1\nimport foo.v2\nimport a.foo.v1\nimport b.foo.v1\n\nobject Use {\n  field t object:foo.Thing\n  field ts array:object:foo.Thing\n  field k enum:foo.Kind\n  field t1 object:foo.v1.Thing\n  field t2 object:foo.v2.Thing\n  field t3 object:a.foo.v1.Thing\n  field t4 object:b.foo.v1.Thing\n}\n",
+			"use/v1/b.j5s":   "package use.v1\n\nimport foo.v2\nimport foo.v1\n\nobject UseB {\n  field t object:foo.Thing\n  field t2 object:foo.v2.Thing\n}\n",
 		},
 	}
 }
